@@ -299,7 +299,8 @@ g_struct_info_get_copy_function (GIStructInfo *info)
   StructBlob *blob;
 
   g_return_val_if_fail (info != NULL, NULL);
-  g_return_val_if_fail (GI_IS_STRUCT_INFO (info), NULL);
+  g_return_val_if_fail (GI_IS_STRUCT_INFO (info) ||
+                        g_base_info_get_type ((GIBaseInfo *) info) == GI_INFO_TYPE_BOXED, NULL);
 
   blob = (StructBlob *)&rinfo->typelib->data[rinfo->offset];
 
@@ -326,7 +327,8 @@ g_struct_info_get_free_function (GIStructInfo *info)
   StructBlob *blob;
 
   g_return_val_if_fail (info != NULL, NULL);
-  g_return_val_if_fail (GI_IS_STRUCT_INFO (info), NULL);
+  g_return_val_if_fail (GI_IS_STRUCT_INFO (info) ||
+                        g_base_info_get_type ((GIBaseInfo *) info) == GI_INFO_TYPE_BOXED, NULL);
 
   blob = (StructBlob *)&rinfo->typelib->data[rinfo->offset];
 
